@@ -30,6 +30,9 @@ func applyFaults(w *refgraph.World, fs []fault, keys map[string]refgraph.Key) (*
 		case "refuse-doc":
 			refuse[f.Key] = true
 			delete(w2.Docs, f.Key)
+		case "null-doc":
+			// the document loads fine and is the JSON value null: every pointer into it leads nowhere
+			w2.Docs[f.Key] = wire.NullV()
 		default:
 			k := keys[f.Key]
 			doc, ok := w2.Docs[k.Doc]
@@ -57,7 +60,7 @@ func applyFaults(w *refgraph.World, fs []fault, keys map[string]refgraph.Key) (*
 	return w2, refuse
 }
 
-var faultKinds = []string{"refuse-doc", "delete-target", "string", "number", "bool", "array"}
+var faultKinds = []string{"refuse-doc", "delete-target", "string", "number", "bool", "array", "null-doc"}
 
 // pickFaults chooses n faults over the referenced targets / non-root documents of the world.
 func pickFaults(c *Ctx, w *refgraph.World, g *refgraph.Graph, n int) ([]fault, map[string]refgraph.Key) {
@@ -79,7 +82,7 @@ func pickFaults(c *Ctx, w *refgraph.World, g *refgraph.Graph, n int) ([]fault, m
 	var out []fault
 	for i := 0; i < n; i++ {
 		kind := faultKinds[c.Intn(len(faultKinds))]
-		if kind == "refuse-doc" {
+		if kind == "refuse-doc" || kind == "null-doc" {
 			if len(docs) == 0 {
 				continue
 			}
